@@ -98,6 +98,7 @@ fn c10_strategy() -> impl Strategy<Value = Scenario> {
                 manual_getinfo: false,
                 crash_at: vec![],
                 freeze: None,
+        hold: vec![],
             };
             // fund the HTLC for whatever amount the reference classifier expects
             if let Class::Trampoline { amount, .. } = scn.classify(0) {
